@@ -54,6 +54,12 @@ func (cb *CellBuffer) SetContent(x int, y int,
 	if x >= 0 && y >= 0 && x < cb.w && y < cb.h {
 		c := &cb.cells[(y*cb.w)+x]
 
+		// NUL reads back as a blank, and rune 0 is what marks a cell as not
+		// yet drawn: store the blank, so that storing it again changes nothing
+		if mainc == rune(0) {
+			mainc = ' '
+		}
+
 		// Wide characters: we want to mark the "wide" cells
 		// dirty as well as the base cell, to make sure we consider
 		// both cells as dirty together.  We only need to do this
